@@ -322,7 +322,8 @@ pub fn gen(seed: u64, count: usize, tier: &str, params: &Params) -> Vec<Value> {
         let fb = *rng.pick(&["drawn", "drawn", "first", "last", "middle"]);
         let vmap = *rng.pick(&["id", "ext"]);
         let keyed = rng.chance(1, 4);
-        let strides = json!([*rng.pick(&[1, 1, 2, -1, -3, 3, -2])]);
+        // now and then a stride so large that the lane's footprint exceeds any cache-minded threshold (a column of a wide matrix)
+        let strides = if n >= 30 && rng.chance(1, 10) { json!([*rng.pick(&[64, 81, -70, 130])]) } else { json!([*rng.pick(&[1, 1, 2, -1, -3, 3, -2])]) };
         let script: Vec<i64> = if rng.chance(1, 3) { (0..rng.below(8)).map(|_| rng.below(1000) as i64).collect() } else { vec![] };
         let oor = oor_den > 0 && rng.chance(1, oor_den);
         // representation: mostly mutable views; sometimes a shared ArcArray1 handle or a borrowing CowArray
